@@ -417,8 +417,10 @@ class BackendProvider(ABC):
                 return False
             return all(self.kg_equal(x, y) for x, y in zip(a, b))
 
-        # Numeric scalars: tolerant comparison
+        # Numeric scalars: integers compare exactly, reals with a tolerance
         if self.is_number(a) and self.is_number(b):
+            if self.is_integer(a) and self.is_integer(b):
+                return bool(a == b)
             result = np.isclose(a, b)
             if hasattr(result, 'item'):
                 return bool(result.item())
